@@ -22,7 +22,7 @@ KINDS = ["KDupStruct", "KDupTask", "KDupAttr", "KDupTaskIn", "KDupCallOut", "KAr
          "KUnknownVarInput", "KNoAttribute", "KNotAStruct", "KUnknownVariable", "KUnknownStruct",
          "KUnknownAttrInLit", "KWrongTypeStruct", "KWrongTypePrim", "KWrongTypeArray", "KArrayElem",
          "KArrayLength", "KMissingAttr", "KParLoop", "KNotBoolean", "KCmpTypes", "KArith", "KUnknownTask",
-         "KIndexMismatch", "KLimitNotNumber", "KRecursion"]
+         "KIndexMismatch", "KLimitNotNumber", "KRecursion", "KNestedArray"]
 
 # message text -> message kind (one entry per print_error call site); order matters
 MSG_TABLE = [
@@ -59,6 +59,7 @@ MSG_TABLE = [
     ("KIndexMismatch", r"^Attribute '.*' is (not an Array|an Array and needs an index)$"),
     ("KLimitNotNumber", r"^The limit of a counting loop has to be a number$"),
     ("KRecursion", r"^The call of Task '.*' leads back to Task '.*' \(recursion is not supported\)$"),
+    ("KNestedArray", r"^The array '.*' contains an array as element, arrays of arrays are not supported$"),
     # printed by the visitor for a literal json.loads rejects; no AST, hence no model kind
     ("KJsonInvalid", r"^The struct instantiation is not valid JSON$"),
 ]
